@@ -137,6 +137,8 @@ pub mod layout;
 pub mod opcode;
 pub mod tc;
 pub mod utility;
+#[cfg(smlxl_storage_layout_extractor_verif)]
+pub mod verif;
 pub mod vm;
 pub mod watchdog;
 
